@@ -2,13 +2,13 @@
 (* Validates recorded executions of the real ActiveFabric against Fabric.tla; total verdicts. *)
 EXTENDS Fabric, Json, IOUtils, TLCExt
 All == ndJsonDeserialize(IOEnv.TRACE_FILE)
-VARIABLES tid, l, bad, nthreads
-tv == <<fvars, tid, l, bad, nthreads>>
+VARIABLES tid, l, bad, nthreads, called
+tv == <<fvars, tid, l, bad, nthreads, called>>
 T == All[tid]
 E == T.ev[l]
 NF == E[Len(E) - 1]
 NL == E[Len(E)]
-TInit == tid \in DOMAIN All /\ l = 1 /\ bad = {} /\ FInit /\ nthreads = <<0, 0>>
+TInit == tid \in DOMAIN All /\ l = 1 /\ bad = {} /\ FInit /\ nthreads = <<0, 0>> /\ called = {}
 KindOf(th) == IF Len(th) < 8 THEN "none"
               ELSE IF SubSeq(th, 1, 8) = "fab_fifo" THEN "fifo" ELSE IF SubSeq(th, 1, 8) = "fab_lifo" THEN "lifo" ELSE "none"
 Chk(ok, name) == IF ok THEN {} ELSE {name}
@@ -28,7 +28,9 @@ Step ==
     [] E[1] = "app" ->
          LET k == KindOf(E[4]) IN
          IF k = "none" \/ E[3] = 0 THEN bad' = Threads /\ UNCHANGED fvars
-         ELSE IF ~DeliverOK(k, E[2], E[3]) THEN bad' = {"NotSubscribed"} /\ UNCHANGED fvars
+         (* a queue whose subscribe() call has begun may already be in the registry (the call has not returned yet) *)
+         ELSE IF ~DeliverOK(k, E[2], E[3]) /\ ~(inflight[k] # <<>> /\ inflight[k][1] = E[3] /\ <<E[2], inflight[k][2], k>> \in called)
+              THEN bad' = {"NotSubscribed"} /\ UNCHANGED fvars
          ELSE Deliver(k, E[2], E[3]) /\ bad' = Threads \cup Chk(<<E[3], E[2], k>> \notin delivered, "Twice")
     [] E[1] = "ret" /\ E[2] = "start" -> Started /\ bad' = Threads \cup Chk(NF = 1 /\ NL = 1, "StartFailed")
     [] E[1] = "call" /\ E[2] = "stop" -> StopCalled /\ bad' = Threads
@@ -40,12 +42,14 @@ Step ==
 Final ==
        Chk(T.end.outcome # "bound", "NoProgress") \cup Chk(T.end.outcome # "error", "Error")
   \cup Chk(T.end.outcome # "quiescent" \/ T.end.drivers_done, "Hang")
-  \cup Chk(~(T.end.outcome = "quiescent" /\ T.end.drivers_done /\ running) \/ AllDelivered, "Missing")
+  \cup Chk(~(T.end.outcome = "quiescent" /\ T.end.drivers_done /\ running)
+           \/ {o \in owed : o[3] \notin {T.end.poisoned[k] : k \in 1..Len(T.end.poisoned)}} \subseteq delivered, "Missing")
   \cup Chk(NoDupSubs, "DupSubs")
 
 TNext ==
   /\ bad = {} /\ l <= Len(T.ev) + 1 /\ tid' = tid /\ l' = l + 1
   /\ IF l <= Len(T.ev) THEN Step /\ nthreads' = <<NF, NL>> ELSE bad' = Final /\ UNCHANGED <<fvars, nthreads>>
+  /\ called' = IF l <= Len(T.ev) /\ E[1] = "subcall" THEN called \cup {<<E[2], E[3], E[4]>>} ELSE called
   /\ IF bad' # {} THEN PrintT(ToJson([tid |-> T.tid, at |-> l, bad |-> bad', owed |-> owed \ delivered]))
      ELSE IF l = Len(T.ev) + 1 THEN PrintT(ToJson([tid |-> T.tid, done |-> l])) ELSE TRUE
 TSpec == TInit /\ [][TNext]_tv
